@@ -173,7 +173,8 @@ func CombineFields(fields ...Field) Field {
 
 	float1Final := make(map[string]sample.Vec3ToFloat)
 	for attribute, functions := range float1Aggregate {
-
+		// the closure below outlives the iteration: it must not share the loop variable with the other attributes
+		functions := functions
 		tree := trees.NewOctree(float1Fields[attribute])
 
 		float1Final[attribute] = func(f vector3.Float64) float64 {
